@@ -128,6 +128,7 @@ func (e Engine) Generate(r *core.Rand, tier core.Tier) *core.Scenario {
 		}
 		k.Replicas = append(k.Replicas, rc)
 	}
+	k.Gen.Legacy = r.Chance(1, 6)
 	wl := workloads[e.Prop]
 	if wl != nil && wl.Tune != nil {
 		wl.Tune(r, &k)
